@@ -33,9 +33,10 @@ POS_ATTRS = {"n": "sn", "x": "sx", "y": "sy"}
 
 
 class Fn:
-    def __init__(self, name, params, pos_params, needs_fuel, ret_arity, ret_kind):
+    def __init__(self, name, params, pos_params, needs_fuel, ret_arity, ret_kind, elem_kind="int"):
         self.name, self.params, self.pos_params = name, params, pos_params
         self.needs_fuel, self.ret_arity, self.ret_kind = needs_fuel, ret_arity, ret_kind
+        self.elem_kind = elem_kind              # kind of the items of a list / generator result
 
 
 class Translator:
@@ -183,6 +184,78 @@ class Translator:
             return self.loop(s, rest, env, kinds)
         self.fail(s, "statement outside the subset")
 
+    # ------------------------------------------------------------------ generators
+    # A generator function becomes a function returning option (list T): the items it yields, in
+    # order; None when a call inside it fails or the fuel runs out.
+    def gen_block(self, stmts, env, kinds):
+        if not stmts:
+            return "Some []"
+        s, rest = stmts[0], stmts[1:]
+        if isinstance(s, ast.Expr) and isinstance(s.value, ast.Constant) and isinstance(s.value.value, str):
+            return self.gen_block(rest, env, kinds)
+        if isinstance(s, ast.If) and not s.orelse and len(s.body) == 1 and isinstance(s.body[0], ast.Return) \
+                and s.body[0].value is None:
+            def go():
+                c = self.expr(s.test, env, kinds)
+                return f"if {c} then Some [] else ({self.gen_block(rest, env, kinds)})"
+            return self.with_binds(go)
+        if isinstance(s, ast.Assign) and len(s.targets) == 1 and isinstance(s.targets[0], ast.Name):
+            def go():
+                term, kd = self.expr(s.value, env, kinds), self.kind_of(s.value, kinds)
+                g = self.fresh(s.targets[0].id)
+                env2, kinds2 = dict(env), dict(kinds)
+                env2[s.targets[0].id], kinds2[s.targets[0].id] = g, kd
+                return f"let {g} := {term} in " + self.gen_block(rest, env2, kinds2)
+            return self.with_binds(go)
+        if isinstance(s, ast.For) and not s.orelse and isinstance(s.target, ast.Name) and isinstance(s.iter, ast.Call) \
+                and isinstance(s.iter.func, ast.Name):
+            def go():
+                it = s.iter
+                if it.func.id == "range" and len(it.args) == 2 and not it.keywords:
+                    lst = f"(src_range {self.expr(it.args[0], env, kinds)} {self.expr(it.args[1], env, kinds)})"
+                    ek = "int"
+                else:
+                    f = self.fns.get(it.func.id) or (self.current if it.func.id == self.current.name else None)
+                    if f is None or f.ret_kind not in ("list", "gen"):
+                        self.fail(s, "for over something that is not range() or a translated list/generator")
+                    lst, ek = self.call(it, env, kinds), f.elem_kind
+                v = self.fresh(s.target.id)
+                env2, kinds2 = dict(env), dict(kinds)
+                env2[s.target.id], kinds2[s.target.id] = v, ek
+                body = self.with_binds(lambda: self.gen_block(s.body, env2, kinds2))
+                loop = f"src_concat_map (fun {v} => {body}) {lst}"
+                if not [r for r in rest if not (isinstance(r, ast.Expr) and isinstance(r.value, ast.Constant))]:
+                    return loop
+                return f"src_app_opt ({loop}) ({self.gen_block(rest, env, kinds)})"
+            return self.with_binds(go)
+        if isinstance(s, ast.Expr) and isinstance(s.value, ast.Yield) and s.value.value is not None:
+            def go():
+                v = s.value.value
+                if isinstance(v, ast.Tuple):
+                    item = "(" + ", ".join(self.expr(x, env, kinds) for x in v.elts) + ")"
+                else:
+                    item = self.expr(v, env, kinds)
+                return f"src_cons_opt {item} ({self.gen_block(rest, env, kinds)})"
+            return self.with_binds(go)
+        self.fail(s, "generator statement outside the subset")
+
+    def gen_elem_kind(self, fd, kinds):
+        ks = set()
+        for n in ast.walk(fd):
+            if isinstance(n, ast.Yield) and n.value is not None:
+                if isinstance(n.value, ast.Tuple):
+                    ks.add("tuple")
+                elif isinstance(n.value, ast.Name) and kinds.get(n.value.id) == "pos":
+                    ks.add("pos")
+                elif isinstance(n.value, ast.Name):
+                    ks.add("item")          # an item passed on from an inner generator
+                else:
+                    ks.add("int")
+        ks.discard("item")
+        if len(ks) > 1:
+            self.fail(fd, "generator yielding items of different kinds")
+        return ks.pop() if ks else "pos"
+
     def kind_of(self, e, kinds):
         if isinstance(e, ast.Call) and isinstance(e.func, ast.Name) and e.func.id == "Pos":
             return "pos"
@@ -274,6 +347,7 @@ class Translator:
                 kind = "pos3" if ar == 3 else "tuple"
             elif isinstance(r.value, ast.List):
                 kind = "list"
+        is_gen = any(isinstance(n, (ast.Yield, ast.YieldFrom)) for n in ast.walk(fd))
         callee_fuel = any(isinstance(n, ast.Call) and isinstance(n.func, ast.Name) and n.func.id in self.fns
                           and self.fns[n.func.id].needs_fuel for n in ast.walk(fd))
         self.current = Fn(name, params, posp, recursive or has_loop or callee_fuel, ar, kind)
@@ -282,7 +356,18 @@ class Translator:
         self.uses_fuel = False
         env = {p: p for p in params}
         kinds = {p: ("pos" if p in posp else "int") for p in params}
-        body = self.block(fd.body, env, kinds)
+        if is_gen:
+            if rets and any(r.value is not None for r in rets):
+                self.fail(fd, "generator returning a value")
+            self.current.ret_kind = "gen"
+            self.current.elem_kind = self.gen_elem_kind(fd, kinds)
+            body = self.gen_block(fd.body, env, kinds)
+        else:
+            if kind == "list":
+                self.current.elem_kind = "pos" if all(
+                    isinstance(x, ast.Call) and isinstance(x.func, ast.Name) and x.func.id == "Pos"
+                    for r in rets if isinstance(r.value, ast.List) for x in r.value.elts) else "int"
+            body = self.block(fd.body, env, kinds)
         ptxt = " ".join(f"({p} : {'spos' if p in posp else 'Z'})" for p in params)
         if recursive:
             self.out.append(f"Fixpoint src_{name} (fuel : nat) {ptxt} {{struct fuel}} :=\n"
@@ -308,15 +393,16 @@ class Translator:
 
 HEADER = """(* GENERATED by harness/py2coq.py from {path} -- do not edit; regenerated on every run. *)
 From Coq Require Import ZArith List Bool.
+From Toasty Require Import Model.SrcPrelude.
 Import ListNotations.
 Local Open Scope Z_scope.
 
-Record spos := mkSP {{ sn : Z; sx : Z; sy : Z }}.
-
 """
 
-PYRAMID_FUNCS = ["next_highest_power_of_2", "depth2tiles", "tiles_at_depth", "pos_parent", "pos_children", "is_subtile"]
-PYRAMID_POS = {"pos_parent": {"pos"}, "pos_children": {"pos"}, "is_subtile": {"deeper_pos", "shallower_pos"}}
+PYRAMID_FUNCS = ["next_highest_power_of_2", "depth2tiles", "tiles_at_depth", "pos_parent", "pos_children", "is_subtile",
+                 "_postfix_pos", "generate_pos"]
+PYRAMID_POS = {"pos_parent": {"pos"}, "pos_children": {"pos"}, "is_subtile": {"deeper_pos", "shallower_pos"},
+               "_postfix_pos": {"pos"}}
 
 
 def translate_pyramid(repo):
@@ -329,6 +415,189 @@ def translate_pyramid(repo):
     return HEADER.format(path="toasty/pyramid.py") + body
 
 
+# ---------------------------------------------------------------------------------------------
+# toasty/study.py: the StudyTiling geometry (methods of a class whose state is integer fields)
+
+STUDY_METHODS = ["__init__", "compute_for_subimage", "n_deepest_layer_tiles", "image_to_tile",
+                 "count_populated_positions", "generate_populated_positions"]
+
+
+class StudyTranslator(Translator):
+    """Methods of class StudyTiling.  The instance is the record stiling whose fields are the class-level
+    attribute declarations (`_width = None`, ...) in source order; `self._f` reads a field; in __init__
+    `self._f = e` sets one and the constructor returns the record once every field is set; on a local
+    object made by `StudyTiling(a, b)`, `obj._f = e` / `obj._f += e` replace one field.  Further forms:
+    int(e) on an integer is e; max/min of two; `np.floor(e).astype(int)` on an integer e is e
+    (exact while |e| < 2**53); `int(np.log2(e))` is Z.log2 e (exact for the powers of two it is applied to)."""
+
+    CLASS = "StudyTiling"
+
+    def __init__(self, source, pyramid_fns):
+        Translator.__init__(self, source, STUDY_METHODS, {})
+        self.fns = dict(pyramid_fns)
+        cls = [n for n in self.tree.body if isinstance(n, ast.ClassDef) and n.name == self.CLASS]
+        if len(cls) != 1:
+            raise Unsupported("class StudyTiling not found")
+        self.cls = cls[0]
+        self.fields = []
+        for n in self.cls.body:
+            if isinstance(n, ast.Assign) and len(n.targets) == 1 and isinstance(n.targets[0], ast.Name) \
+                    and isinstance(n.value, ast.Constant) and n.value.value is None:
+                self.fields.append(n.targets[0].id)
+        if not self.fields:
+            raise Unsupported("StudyTiling declares no fields")
+        self.in_init = False
+
+    def fld(self, f):
+        return "st" + f if f.startswith("_") else "st_" + f
+
+    def rebuild(self, obj, field, term):
+        return "(mkST " + " ".join(term if f == field else f"({self.fld(f)} {obj})" for f in self.fields) + ")"
+
+    # -- expressions
+    def expr(self, e, env, kinds):
+        if isinstance(e, ast.Attribute) and isinstance(e.value, ast.Name) and e.attr in self.fields:
+            o = e.value.id
+            if self.in_init and o == "self":
+                if e.attr not in self.init_fields:
+                    self.fail(e, "field read before it is set in __init__")
+                return self.init_fields[e.attr]
+            if kinds.get(o) != "tiling":
+                self.fail(e, "field access on something that is not a StudyTiling")
+            return f"({self.fld(e.attr)} {env[o]})"
+        if isinstance(e, ast.Call) and isinstance(e.func, ast.Name) and not e.keywords:
+            fn, a = e.func.id, e.args
+            if fn == "int" and len(a) == 1:
+                x = a[0]
+                if isinstance(x, ast.Call) and isinstance(x.func, ast.Attribute) and isinstance(x.func.value, ast.Name) \
+                        and x.func.value.id == "np" and x.func.attr == "log2" and len(x.args) == 1:
+                    return f"(Z.log2 {self.expr(x.args[0], env, kinds)})"
+                return self.expr(x, env, kinds)
+            if fn in ("max", "min") and len(a) == 2:
+                return f"(Z.{fn} {self.expr(a[0], env, kinds)} {self.expr(a[1], env, kinds)})"
+            if fn == self.CLASS:
+                if len(a) != 2:
+                    self.fail(e, "StudyTiling() arity")
+                args = [self.expr(x, env, kinds) for x in a]
+                v = self.fresh("t")
+                self.uses_fuel = True
+                self.binds.append((v, f"(src_StudyTiling_init fuel {' '.join(args)})"))
+                return v
+        # np.floor(e).astype(int)
+        if isinstance(e, ast.Call) and isinstance(e.func, ast.Attribute) and e.func.attr == "astype" and len(e.args) == 1 \
+                and isinstance(e.args[0], ast.Name) and e.args[0].id == "int" and isinstance(e.func.value, ast.Call):
+            inner = e.func.value
+            if isinstance(inner.func, ast.Attribute) and isinstance(inner.func.value, ast.Name) and inner.func.value.id == "np" \
+                    and inner.func.attr == "floor" and len(inner.args) == 1:
+                return self.expr(inner.args[0], env, kinds)
+        return Translator.expr(self, e, env, kinds)
+
+    def kind_of(self, e, kinds):
+        if isinstance(e, ast.Call) and isinstance(e.func, ast.Name) and e.func.id == self.CLASS:
+            return "tiling"
+        return Translator.kind_of(self, e, kinds)
+
+    # -- statements
+    def block(self, stmts, env, kinds):
+        if not stmts and self.in_init:
+            missing = [f for f in self.fields if f not in self.init_fields]
+            if missing:
+                self.fail(self.node, f"__init__ leaves fields unset: {missing}")
+            return "Some (mkST " + " ".join(self.init_fields[f] for f in self.fields) + ")"
+        if stmts:
+            s, rest = stmts[0], stmts[1:]
+            tgt = None
+            if isinstance(s, ast.Assign) and len(s.targets) == 1:
+                tgt = s.targets[0]
+            elif isinstance(s, ast.AugAssign):
+                tgt = s.target
+            if isinstance(tgt, ast.Attribute) and isinstance(tgt.value, ast.Name) and tgt.attr in self.fields:
+                o = tgt.value.id
+
+                def go():
+                    val = self.expr(s.value, env, kinds)
+                    if isinstance(s, ast.AugAssign):
+                        if type(s.op) not in BINOPS:
+                            self.fail(s, "operator")
+                        val = f"({self.expr(tgt, env, kinds)} {BINOPS[type(s.op)]} {val})"
+                    if self.in_init and o == "self":
+                        g = self.fresh("self" + tgt.attr)
+                        saved = dict(self.init_fields)
+                        self.init_fields[tgt.attr] = g
+                        t = f"let {g} := {val} in " + self.block(rest, env, kinds)
+                        self.init_fields = saved
+                        return t
+                    if kinds.get(o) != "tiling" or o == "self":
+                        self.fail(s, "field assignment outside __init__ on something that is not a local StudyTiling")
+                    g = self.fresh(o)
+                    env2 = dict(env)
+                    env2[o] = g
+                    return f"let {g} := {self.rebuild(env[o], tgt.attr, val)} in " + self.block(rest, env2, kinds)
+                return self.with_binds(go)
+        return Translator.block(self, stmts, env, kinds)
+
+    # -- methods
+    def method(self, fd):
+        name = "StudyTiling_" + ("init" if fd.name == "__init__" else fd.name)
+        params = [a.arg for a in fd.args.args]
+        if fd.args.vararg or fd.args.kwarg or fd.args.kwonlyargs or fd.args.defaults or not params or params[0] != "self":
+            self.fail(fd, "method signature outside the subset")
+        self.in_init = fd.name == "__init__"
+        self.init_fields = {}
+        is_gen = any(isinstance(n, (ast.Yield, ast.YieldFrom)) for n in ast.walk(fd))
+        rets = [n for n in ast.walk(fd) if isinstance(n, ast.Return)]
+        ar, kind = 1, "int"
+        for r in rets:
+            if isinstance(r.value, ast.Tuple):
+                ar, kind = len(r.value.elts), "tuple"
+        calls = [n.func.id for n in ast.walk(fd) if isinstance(n, ast.Call) and isinstance(n.func, ast.Name)]
+        needs_fuel = any((c in self.fns and self.fns[c].needs_fuel) or c == self.CLASS for c in calls)
+        ps = params[1:] if self.in_init else params
+        self.current = Fn(name, ps, set(), needs_fuel, ar, kind)
+        self.node, self.binds, self.uses_fuel = fd, [], False
+        env = {p: p for p in ps}
+        kinds = {p: "int" for p in ps}
+        if not self.in_init:
+            kinds["self"] = "tiling"
+        if self.in_init and rets:
+            self.fail(fd, "return inside __init__")
+        if is_gen:
+            self.current.ret_kind, self.current.elem_kind = "gen", "tuple"
+            body = self.gen_block(fd.body, env, kinds)
+        else:
+            body = self.block(fd.body, env, kinds)
+        ptxt = " ".join(f"({p} : {'stiling' if kinds[p] == 'tiling' else 'Z'})" for p in ps)
+        fuel = "(fuel : nat) " if needs_fuel else ""
+        self.out.append(f"Definition src_{name} {fuel}{ptxt} :=\n  {body}.\n")
+        self.fns[fd.name] = self.current
+
+    def run(self):
+        found = {n.name: n for n in self.cls.body if isinstance(n, ast.FunctionDef)}
+        missing = [w for w in self.wanted if w not in found]
+        if missing:
+            raise Unsupported(f"methods not found in class StudyTiling: {missing}")
+        rec = "Record stiling := mkST { " + "; ".join(f"{self.fld(f)} : Z" for f in self.fields) + " }.\n"
+        self.out.append(rec)
+        for w in self.wanted:
+            self.method(found[w])
+        return "\n".join(self.out)
+
+
+def translate_study(repo):
+    """Gallina text for StudyTiling of <repo>/toasty/study.py (raises Unsupported).  The file is
+    self-contained: it carries its own translation of pyramid.next_highest_power_of_2, the one
+    function of pyramid.py that study.py uses, so that a change elsewhere in pyramid.py cannot
+    disturb it."""
+    import os
+    pt = Translator(open(os.path.join(str(repo), "toasty", "pyramid.py")).read(), ["next_highest_power_of_2"], {})
+    np2 = pt.run()
+    t = StudyTranslator(open(os.path.join(str(repo), "toasty", "study.py")).read(), pt.fns)
+    body = t.run()
+    return HEADER.format(path="toasty/study.py and toasty/pyramid.py (next_highest_power_of_2)") + np2 + "\n" + body
+
+
 if __name__ == "__main__":
     import sys
-    sys.stdout.write(translate_pyramid(sys.argv[1] if len(sys.argv) > 1 else "/repo"))
+    which = sys.argv[2] if len(sys.argv) > 2 else "pyramid"
+    fn = {"pyramid": translate_pyramid, "study": translate_study}[which]
+    sys.stdout.write(fn(sys.argv[1] if len(sys.argv) > 1 else "/repo"))
